@@ -432,15 +432,35 @@ MUTATING_CALLS = {'write', 'pwrite64', 'writev', 'renameat', 'renameat2', 'renam
                   'fchown', 'fchownat', 'chown', 'copy_file_range', 'fallocate', 'creat', 'mknodat', 'setxattr', 'fsetxattr'}
 
 
+FD_CALLS = {'write', 'pwrite64', 'writev', 'ftruncate', 'fchmod', 'fchown', 'fallocate', 'fsetxattr', 'copy_file_range'}
+
+
 def mutating_syscalls(win, root):
-    """Syscalls in the window that mutate (or could mutate) something under root."""
+    """Syscalls in the window that mutate (or could mutate) something under root.
+    fd-based calls are judged by the path strace annotates on the descriptor, path-based calls by their path arguments
+    (never by data bytes that merely contain the path)."""
     out = []
+    root = os.path.normpath(root)
+
+    def under(p):
+        p = os.path.normpath(p)
+        return p == root or p.startswith(root + '/')
     for s in win:
+        if s.err is not None and s.name not in ('openat', 'open'):
+            continue
         if s.name in ('openat', 'open'):
-            if any(f in s.args for f in MUT_RE) and root in s.args:
+            strs = sc.strings_of(s.args)
+            flags = sc.STR_RE.sub('""', s.args)
+            if strs and under(strs[0].decode('utf-8', 'surrogateescape')) and any(f in flags for f in MUT_RE):
+                out.append(s)
+        elif s.name in FD_CALLS:
+            fds = sc.fds_of(s.args)
+            tgt = fds[-1] if s.name == 'copy_file_range' and len(fds) >= 2 else (fds[0] if fds else None)
+            if tgt and tgt[1].startswith('/') and under(tgt[1].replace('(deleted)', '')):
                 out.append(s)
         elif s.name in MUTATING_CALLS:
-            if root in s.args and (s.err is None):
+            strs = [x.decode('utf-8', 'surrogateescape') for x in sc.strings_of(s.args)[:2]]
+            if any(under(p) for p in strs if p.startswith('/')):
                 out.append(s)
     return out
 
@@ -677,3 +697,29 @@ def c03_syscall_stage(ctx):
     st.sample({'delimited_calls': nseg, 'base': base, 'example': [x.raw[:160] for x in sl if x.name in PATH_CALLS][:6]})
     shutil.rmtree(st.work, ignore_errors=True)
     return st.done()
+
+
+def c15_agent_postprocess(ctx, res, workdir):
+    """Inspect the strace logs of the agent run by `hx c15agent` for mutating syscalls on the store."""
+    bf = os.path.join(workdir, 'agent-base.txt')
+    if not os.path.exists(bf):
+        res['harness_error'] = 'c15agent left no trace information'
+        return res
+    base = open(bf).read().strip()
+    nlogs = 0
+    nsys = 0
+    vio = []
+    for fn in sorted(os.listdir(workdir)):
+        if not fn.startswith('agent-trace.'):
+            continue
+        nlogs += 1
+        sl, _ = sc.parse_thread_log(os.path.join(workdir, fn))
+        nsys += len(sl)
+        for s in mutating_syscalls(sl, base):
+            vio.append(s.raw[:300])
+    res['counters'] = res.get('counters') or {}
+    res['counters']['agent_thread_logs'] = nlogs
+    res['counters']['agent_syscalls_inspected'] = nsys
+    if vio:
+        res['violations'] = (res.get('violations') or []) + [{'sig': 'c15:agent-read-only-request-mutates-store', 'what': 'while serving only read-only / refused requests the agent issued mutating system calls on the store: ' + '; '.join(vio[:3]), 'case': 'agent', 'witness': {'syscalls': vio[:20]}}]
+    return res
